@@ -446,7 +446,10 @@ func (s *JavaFullListener) EnterCreator(ctx *parser.CreatorContext) {
 			continue
 		}
 		createdName := identifier.GetText()
-		localVars[variableName] = createdName
+		// `f(x, new T())`: the first argument of a call is not a variable the creation is assigned to
+		if _, isArgument := ctx.GetParent().GetParent().(*parser.ExpressionListContext); !isArgument {
+			localVars[variableName] = createdName
+		}
 
 		buildCreatorCall(createdName, ctx)
 
